@@ -73,6 +73,36 @@ def traces():
         evs.append({"op": "checkpoint", "sink": "seekable"})
         out.append(T("corpus-%s" % d, evs, start=[{"deck": d}]))
     out.extend(pair_orders())
+    out.extend(after_another_producer())
+    return out
+
+
+def after_another_producer():
+    """The kit saved, rewritten by a producer that writes optional children python-pptx never writes (a:custDash on outlines, c:spPr in
+    c:dLbls) or spells booleans as words, re-opened - then every catalog property of the objects concerned is assigned."""
+    import random
+    from .. import c09
+    c09.build_catalog()
+    out = []
+    ck = {"op": "checkpoint", "sink": "seekable"}
+    for xf in ([{"kind": "rewrite_slides", "how": "optional_children"}, {"kind": "rewrite_charts", "how": "optional_children"}],
+               [{"kind": "rewrite_slides", "how": "bool_words"}, {"kind": "rewrite_charts", "how": "reverse_idx"}]):
+        for objs in (("dlbls", "dlbl", "plot", "barplot"), ("line", "shape", "cxn"), ("font", "p", "tf", "cell", "tbl"), ("vax", "cax", "legend", "chart")):
+            evs = list(c09.kit_events())
+            eids = [e for e in sorted(c09.CAT) if c09.CAT[e]["obj"] in objs]
+            # make sure the containers exist before the rewrite
+            for eid in eids[:6]:
+                r = random.Random(eid)
+                g = c09.CAT[eid]["good"]
+                evs.append({"op": "c09.set", "entry": eid, "v": g(r) if callable(g) else list(g)[0], "kind": "good", "slide": 0, "i": 0})
+            evs += [ck, {"op": "restart", "xform": xf}]
+            for eid in eids:
+                r = random.Random(eid + "/2")
+                g = c09.CAT[eid]["good"]
+                for k in range(2):
+                    evs.append({"op": "c09.set", "entry": eid, "v": g(r) if callable(g) else list(g)[k % len(g)], "kind": "good", "slide": 0, "i": k})
+            evs += [ck]
+            out.append(T("after-another-producer-%s-%s" % (xf[0]["how"], objs[0]), evs))
     return out
 
 
